@@ -383,6 +383,69 @@ RULE = ('random build programs, a flat stream (one circuit) and a nested stream 
         'observed; distinct = distinct program text')
 
 
+def real_constructor_stage(oc, rng, tier):
+    """The determinism clause through the REAL `PlatformManager.construct_program / construct_kernel` (the recording doubles
+    replace exactly these two, so whatever they do to a name is invisible to the rest of this check — seeded change C15-m6:
+    kernel names made unique with a process-wide counter that only `to_openql()` resets).  Only `openql_platform` is replaced (by
+    the recorder's private platform: no config file of the package is read or written).  Flat circuits are exported twice with
+    `OpenQLFactoryManager().construct`, once with `to_openql`, compiled, and the cQASM texts — kernel labels included — compared
+    with each other and with the uuid-derived names."""
+    import contextlib, io, warnings
+    rec = exportrun.OpenQLRecorder()
+    plat = rec.real_platform()
+    PM = rec.pm.PlatformManager
+    old = PM.__dict__['openql_platform']
+    PM.openql_platform = classmethod(lambda cls: plat)
+    n = 25 if tier == 'quick' else 400
+    done = fails = 0
+    first = None
+
+    class P:           # what compile_qasm expects
+        def __init__(self, real):
+            self.real, self.name = real, real.name
+
+    try:
+        for _ in range(n):
+            prog = [c for c in gen_program(random.Random(rng.getrandbits(64)), nested=False) if c[0] in ('new', 'op', 'gdur', 'gdur-leave', 'setreg', 'setrep')]
+            run = progs.ImplRun()
+            try:
+                with contextlib.redirect_stderr(io.StringIO()), warnings.catch_warnings():
+                    warnings.simplefilter('ignore')
+                    for cmd in prog:
+                        run.step(cmd)
+                    circ = run.circs[0]
+                    texts = []
+                    for how in ('construct', 'construct', 'to_openql'):
+                        pr = rec.manager().construct(circuit=circ) if how == 'construct' else rec.to_openql(circ)
+                        texts.append(exportrun.compile_qasm(P(pr)))
+                    _, kn = exportrun.uuid_names([type(o).__name__ for o in circ.operations])
+            except RecursionError:
+                continue
+            except Exception as e:  # noqa — the exporter raising on a flat circuit is judged by the main stage
+                texts = None
+            finally:
+                run.close()
+            if texts is None or any(t.startswith('EXC:') for t in texts):
+                continue
+            done += 1
+            labels = [[ln.strip()[1:] for ln in t.splitlines() if ln.strip().startswith('.')] for t in texts]
+            bad = None
+            if not (texts[0] == texts[1] == texts[2]):
+                bad = 'the same circuit exported again through OpenQLFactoryManager().construct / to_openql yields a different cQASM (kernel names)'
+            elif any(l != [kn] for l in labels):
+                bad = 'kernel label of the compiled program is not the uuid-derived kernel name'
+            if bad:
+                fails += 1
+                if first is None:
+                    first = {'what': bad, 'program': prog, 'kernel_labels': labels, 'expected_kernel_name': kn}
+    finally:
+        PM.openql_platform = old
+    if first is not None:
+        oc.violation({'property': PROP, 'kind': 'predicate-fails-on-implementation', 'failure': first,
+                      'stage': 'real constructors', 'count': fails})
+    return {'real_constructor_exports': done * 3, 'real_constructor_failures': fails}
+
+
 def run(tier: str, seed: int) -> int:
     t0 = time.time()
     oc = common.Outcome(PROP)
@@ -471,6 +534,7 @@ def run(tier: str, seed: int) -> int:
                           'model_answers': rr['model'], 'predicate_failures': rr['fails']}, found_input=bool(hard))
     stats = {}
     n_tab = check_tables(oc, stats)
+    stats.update(real_constructor_stage(oc, common.rng_for(seed, PROP + '-real'), tier))
     if not proof_ok and not oc.violations:
         oc.violation({'property': PROP, 'kind': 'proof-obligation-broken', 'unchecked': lean.get('failed'),
                       'build_output': lean.get('build_output', '')[-3000:], 'axioms': lean.get('axioms')},
@@ -488,6 +552,7 @@ def run(tier: str, seed: int) -> int:
             'cQASM of Program.compile()); uuid5 (Python uuid module)'],
         'theorems': lean.get('theorems', []),
         'axioms': lean.get('axioms', {}),
+        'real_constructor_exports': stats.get('real_constructor_exports'),
         'evaluations': len(results) + stats.get('single_operation_cases', 0),
         'distinct_nontrivial': len(nontriv),
         'rule': RULE,
